@@ -24,7 +24,7 @@ impl Property for C13 {
         }
     }
     fn required_classes(&self) -> Vec<&'static str> {
-        vec!["fail-at-ctor", "fail-at-checked-row", "fail-at-mid-clock-write", "dev:drop", "dev:add", "dev:duplicate", "dev:swap", "dev:substitute", "dev:rewidth", "dev:swap-in-place", "dev:unknown-signal-added", "overriding-driver", "defaulting-driver", "row-after-deviation-checked", "probe-after-deviation-checked", "first-answer-without-entries", "another-iterator-with-another-layout-ran-before"]
+        vec!["fail-at-ctor", "fail-at-checked-row", "fail-at-mid-clock-write", "dev:drop", "dev:add", "dev:duplicate", "dev:swap", "dev:substitute", "dev:rewidth", "dev:swap-in-place", "dev:unknown-signal-added", "answer-of-more-than-64-entries", "overriding-driver", "defaulting-driver", "row-after-deviation-checked", "probe-after-deviation-checked", "first-answer-without-entries", "another-iterator-with-another-layout-ran-before"]
     }
     fn run(&self, s: &Streams) -> CaseOut {
         let mut out = CaseOut::new();
@@ -36,6 +36,41 @@ impl Property for C13 {
         cfg.n_out = (1, 4);
         cfg.device_whiles = false;
         let mut dch = Ch::new(&s[2]);
+        // One case in forty: a device with 66-72 one-bit outputs (the test's header names none of them), three rows, and an
+        // answer to the second row's call in which two entries at positions 64 and up have traded places (or one of them
+        // names another signal): a different order than in the first answer, however far back in the answer.
+        if dch.chance(1, 40) {
+            use crate::model::*;
+            out.class("answer-of-more-than-64-entries");
+            let n = 66 + dch.upto(7);
+            let mut sigs = vec![Sig { name: "A".into(), bits: 1, kind: Kind::In(InVal::Val(0)) }];
+            for k in 0..n {
+                sigs.push(Sig { name: format!("O{k}"), bits: 1, kind: Kind::Out });
+            }
+            let prog = Program { header: vec!["A".into()], stmts: (0..3).map(|i| Stmt::Row(i, vec![Entry::Num((i % 2) as u64, Radix::Dec)])).collect() };
+            let text = crate::print::canonical(&prog).text;
+            let mut spec = DriverSpec::honest(&sigs, dch.u64(), Palette::Bit);
+            let p = 64 + dch.upto(n - 64);
+            let mut q = 64 + dch.upto(n - 64);
+            if q == p {
+                q = if p + 1 < n { p + 1 } else { p - 1 };
+            }
+            spec.deviate_at = Some((2, if dch.chance(1, 2) { Deviation::Swap(p, q) } else { Deviation::Substitute(p, spec.layout[q]) }));
+            render_case(&mut out, &text, &sigs, Some(&spec));
+            out.nontrivial = true;
+            let Some(tc) = load_wellformed(&mut out, "c13", &text, &sigs) else { return out };
+            let real = run_real(&tc, &sigs, &spec, &RunOpts { max_next: 5, continue_after_error: true, ..Default::default() });
+            match (real.ctor.as_ref(), real.items.first(), real.items.get(1)) {
+                (None, Some(RealItem::Row(_)), Some(RealItem::RuntimeErr(_))) => {}
+                (_, _, Some(RealItem::Panic(pn))) | (_, Some(RealItem::Panic(pn)), _) | (Some(RealItem::Panic(pn)), _, _) => out.fail(pn.key(), format!("panicked: {pn}")),
+                (None, Some(RealItem::Row(_)), other) if real.log.len() >= 3 && real.log[2].deviated => out.fail(
+                    "c13:deviation-not-an-error",
+                    format!("a device with {n} outputs: in the answer to the second row's call the entries at positions {p} and {q} differ from the first answer (a different order); that row must be an error, got {:?}", other.map(|x| x.short())),
+                ),
+                _ => out.discard("fault-free-run-not-clean"),
+            }
+            return out;
+        }
         // one case in eight reads nothing from the device; in half of those the driver's first
         // answer has no entries at all (a later answer that has one is a different number)
         let reads_nothing = dch.chance(1, 8);
